@@ -42,12 +42,29 @@ def _m1():
     return cfg
 
 
+def _m4():
+    """One server: an instance that loses its identity is re-placed on the
+    same server within one cycle."""
+    cfg = mastercfg.m4()
+    cfg['cellmonitors'] = [cellmon.mon_c05]
+    cfg['monitors'] = [mastermon.mon_c05_published]
+    cfg['allow_nocycle'] = False
+    cfg['events'] = mastercfg.ev(
+        ('app+', 'id'), ('app-', 0), ('app-', 1),
+        ('idg', 'g', 1), ('idg', 'g', 2), ('idg', 'g', 3), ('idg', 'g', 0),
+        ('noop',), ('restart',),
+    )
+    return cfg
+
+
 def configs(ctx):
     if ctx.quick:
         return [('K4', _k4(), 4, 2),
-                ('M1', _m1(), 3, 1, _masterprop.MasterSpec)]
+                ('M1', _m1(), 3, 1, _masterprop.MasterSpec),
+                ('M4', _m4(), 5, 0, _masterprop.MasterSpec)]
     return [('K4', _k4(), 6, 2),
-            ('M1', _m1(), 5, 2, _masterprop.MasterSpec)]
+            ('M1', _m1(), 5, 2, _masterprop.MasterSpec),
+            ('M4', _m4(), 8, 1, _masterprop.MasterSpec)]
 
 
 RULE = ('BFS over histories of arrivals/removals/evictions/server failure/'
